@@ -9,8 +9,10 @@ from harness import common, tlc
 
 
 def registry():
-    from harness.props import reqwait, errorclass, session, dispatch
+    from harness.props import reqwait, errorclass, session, dispatch, handshake
     return {
+        "C03": handshake.check_c03,
+        "C04": handshake.check_c04,
         "C08": dispatch.check_c08,
         "C19": session.check_c19,
         "C07": errorclass.check_c07,
